@@ -215,26 +215,3 @@ def polyExps (d : Nat) : List (Nat × Nat) :=
   (List.range (d + 1)).flatMap fun i => (List.range (d + 1 - i)).map fun j => (i, j)
 
 end Darsia.Sig
-
-namespace Darsia.Sig
-
-/-- `CombinedModel.update_model_parameters` as the object experiences it: all sub-models are restored when one
-of them raises (after the `fix:` commit), so a failing update leaves the models as they were -/
-def updateAllS (ms : List M) (ps : List Rat) : List M × Option Err :=
-  match updateAll ms ps with
-  | .ok ms' => (ms', none)
-  | .error e => (ms, some e)
-
-def updateSubsetS (ms : List M) (dofs : List (Nat × DofSpec)) (ps : List Rat) : List M × Option Err :=
-  match updateSubset ms dofs ps with
-  | .ok ms' => (ms', none)
-  | .error e => (ms, some e)
-
-/-- a single model: the parameters are read before anything is assigned (and the label-wise model puts the
-previous arrays back), so a failing update leaves it as it was -/
-def M.updateS (m : M) (ps : List Rat) (dofs : DofSpec) : M × Option Err :=
-  match m.update ps dofs with
-  | .ok r => (r.1, none)
-  | .error e => (m, some e)
-
-end Darsia.Sig
